@@ -615,7 +615,7 @@ func init() {
 				Args: func(tier string, l *Loaded) [][]int64 { return [][]int64{{0, 0, 0, 1}} }},
 		}}
 	properties["C19"] = &PropertySpec{ID: "C19",
-		Rule:        "footprint / lockset analysis over every explored path of (a) Compile on 8 sources (with and without regex groups, global patterns, transforms, named loops) followed by 0..1 (thorough 2) arbitrary printable bytes and (b) Run of the 8 compiled programs on ASCII texts of length 0..T (quick 2, thorough 3) with the shared compiled program frozen: no write into memory reachable from the shared program, and every package-level variable of the repository that is written, every heap object or map created during package initialisation and every object a call stores into such shared memory has one common mutex held at all of its accesses (accesses through sync/atomic and inside sync.Once are synchronised by construction); libvore starts no goroutines, so empty write footprints make every interleaving of any number of calls equivalent to a sequential order; (c) two-thread symbolic scheduler: Compile(A) || Compile(B) for all 36 unordered pairs of the 8 sources, and Run(t1) || (Run(t2); Compile) on a shared program with symbolic texts of length 0..1 (thorough 2): a symbolic boolean before every mutex acquisition, after every release, before every atomic operation and for the starting thread makes the solver/explorer cover every interleaving of the synchronisation points with at most 3 preemptions (switches forced by a blocked or finished call are free); each call must return what it returns alone; deadlocks are failures",
+		Rule:        "footprint / lockset analysis over every explored path of (a) Compile on 8 sources (with and without regex groups, global patterns, transforms, named loops) followed by 0..1 (thorough 2) arbitrary printable bytes and (b) Run of the 8 compiled programs on ASCII texts of length 0..T (quick 2, thorough 3) with the shared compiled program frozen: no write into memory reachable from the shared program, and every package-level variable of the repository that is written, every heap object or map created during package initialisation and every object a call stores into such shared memory has one common mutex held at all of its accesses (accesses through sync/atomic and inside sync.Once are synchronised by construction); libvore starts no goroutines, so empty write footprints make every interleaving of any number of calls equivalent to a sequential order; (c) two-thread symbolic scheduler: Compile(A) || Compile(B) for all 36 unordered pairs of the 8 sources, and Run(t1) || (Run(t2); Compile) on a shared program with symbolic texts of length 0..1 (thorough 2): a symbolic boolean before every mutex acquisition, after every release, before every atomic operation and for the starting thread makes the solver/explorer cover every interleaving of the synchronisation points with at most 2 preemptions (switches forced by a blocked or finished call are free), each (call, synchronisation call site) offering a preemption the first 2 times it is reached; each call must return what it returns alone; deadlocks are failures",
 		Assumptions: []string{"two concurrent calls in the scheduler groups (a conflict among three or more calls that no pair exhibits is outside the claim)", "context switches only at synchronisation points: sufficient for data-race-free code, and data races are what the lockset groups report", "math/rand's global source is synchronised by the standard library (stub contract)", "the Go memory model below whole loads/stores and races inside the runtime are outside the claim", "counterexamples are confirmed natively by hammering the API from 8 goroutines under the race detector"},
 		Groups: []JobGroup{
 			{Name: "c19-compile", Overlay: libOverlay("C19/c19.go"), Pkg: "libvore", Entry: "VerifC19Compile", Race: true,
